@@ -95,6 +95,50 @@ def point_task(cone, W, shape, tier):
     return r
 
 
+def point3d_task(cone, W, box, tier):
+    """3-D soundness (thorough): concrete box R2 = [0,1]×[0,a]×[0,b], arbitrary symbolic point p, any cone of the
+    set incl. K > m: True ⇒ no separating direction d ≥ 0 exists"""
+    cr, uu = _mods()
+    W = np.asarray(W, dtype=float)
+    K, m = W.shape
+    Wq = Wz(W)
+    proxy = NpProxy()
+    ex = Explorer(f"pt_in_extended_polytope3d[{cone},box={box}]", query_timeout_ms=60000, max_paths=20000, max_depth=5000)
+
+    def body(ctx):
+        p = ctx.reals("p", m)
+        # the box enters as exact constants (Sym), so that W·vertex and P2 − P1 are computed exactly, not in binary64
+        hi_f = [1.0, float(box[0]), float(box[1])]
+        lo = symarray([Sym(sym.rv(0))] * m)
+        hi = symarray([Sym(sym.rv(x)) for x in hi_f])
+        with patched((uu, {"np": proxy})):
+            verts = uu.hyperrectangle_get_vertices(lo, hi)
+            tv = verts @ W.T
+            q = p @ W.T
+            ret = uu.is_pt_in_extended_polytope(q, tv)
+        ret = bool(ret)
+        ctx.witness(str(ret))
+        if ret:
+            qz = zs(q)
+            vz = zs(tv)
+            d = [ctx.fresh("d") for _ in range(K)]
+            sep = z3.And(zand([x >= 0 for x in d]), zor([x > 0 for x in d]), zand([dotz(d, qz) < dotz(d, v) for v in vz]))
+            mdl = ctx.prove("True ⇒ no separating direction d≥0 (3-D)", z3.Not(sep))
+            if mdl is not None:
+                mv = lambda e: model_value(mdl, e)  # noqa
+                ex.candidate("sound", {"kind": "point", "cone": cone, "W": W.tolist(), "p": frac_json([mv(e) for e in zs(p)]),
+                                       "lo": frac_json([Fraction(0)] * 3), "hi": frac_json([Fraction(float(x)) for x in hi_f]),
+                                       "ret": ret}, {"cone": cone, "direction": "sound", "dim": 3})
+                return
+        ctx.sample({"cone": cone, "box": list(box), "ret": ret, "decisions": len(ctx.decisions)})
+
+    ex.run(body)
+    ex.finalize(replay)
+    r = ex.result()
+    r["config"] = {"cone": cone, "box": list(box), "K": K, "m": m}
+    return r
+
+
 def exact_point_oracle(W, p, lo, hi, margin=Fraction(0)):
     """∃z'∈[lo,hi] : W(p − z') ≥ margin   (exact rational LP)"""
     m = len(p)
@@ -229,6 +273,13 @@ def tasks(tier, seed):
                        "weight": 30 if shape == "rect" else 2})
     for cone, W in cone_set(tier, seed=seed):
         ts.append({"id": f"rectlevel[{cone}]", "fn": "rectlevel_task", "args": {"cone": cone, "W": W.tolist(), "tier": tier}})
+    if tier != "quick":
+        for cone, W in cone_set(tier, dims=(3,), seed=seed):
+            if W.shape[0] != W.shape[1]:
+                continue   # K > m: the exploration did not finish within 40 min for the ice-cream cone (stated bound)
+            for box in ((1, 1), (0.5, 2), (0, 1)):
+                ts.append({"id": f"point3d[{cone},{box}]", "fn": "point3d_task",
+                           "args": {"cone": cone, "W": W.tolist(), "box": list(box), "tier": tier}, "weight": 200})
     # the pessimistic Pareto set of VOGP / ε-PAL / VOGP_AD over free PD tables
     from checks import trans
     for t in trans.tasks_for("C11", tier, seed):
@@ -253,8 +304,8 @@ def meta(tier):
                         "on concrete samples with arbitrary rectangles",
                         "separating-hyperplane theorem: p dominates no point of R2 ⇔ some d ≥ 0 separates W p from "
                         "W·R2 (trusted)", "soundness for all z∈R1 from the vertices: convexity of R2 + C (trusted)"],
-        "outside": ["opening angles between grid points", "3-D point-level soundness is checked on concrete samples only "
-                    "(symbolic exploration: 884 paths/103 s per concrete box in the probe; not in the registered tiers)"],
+        "outside": ["opening angles between grid points", "3-D point-level soundness: thorough tier only, K = m cones, three concrete "
+                    "box shapes, arbitrary symbolic point (3d_acute: 1906 paths / 443 s per box); K > m in 3-D only on concrete samples"],
         "explanation": "both directions are refutations of an existential certificate (separating direction / convex "
                        "combination with margin) on every path of the real edge-intersection search",
     }
